@@ -23,6 +23,8 @@ pub fn worker(prop: &str, tier: &str, tag: &str, seed: u64, thorough: bool, root
     };
     let code = match prop {
         "C12" => c12(&tc, tier, tag, seed, thorough, root, threads, t0),
+        "C13" => c13(&tc, tier, tag, seed, thorough, root, threads, t0),
+        "C15" => c15(&tc, tier, tag, seed, thorough, root, threads, t0),
         _ => 2,
     };
     tc.cleanup();
@@ -145,5 +147,264 @@ pub fn replay(v: &serde_json::Value, prop: &str, path: &str) -> i32 {
         _ => 2,
     };
     tc.cleanup();
+    code
+}
+
+fn c13(tc: &Toolchain, tier: &str, tag: &str, seed: u64, thorough: bool, root: &str, threads: usize, t0: Instant) -> i32 {
+    use std::collections::{BTreeMap, BTreeSet};
+    let want = std::env::var("GCVERIF_CASES").ok().and_then(|s| s.parse().ok()).unwrap_or(if thorough { 3000usize } else { 360 });
+    // generated shapes, distinct by class
+    let mut runner = rng_runner(seed, "C13");
+    let strat = crate::c13::shape_strategy();
+    let mut seen = BTreeSet::new();
+    let mut progs: Vec<(String, String, bool)> = Vec::new(); // (class, program, must be accepted)
+    let mut tries = 0;
+    while progs.len() < want && tries < want * 30 {
+        tries += 1;
+        let sh = strat.new_tree(&mut runner).unwrap().current();
+        if seen.insert(sh.class()) {
+            progs.push((sh.class(), sh.render(), sh.must_be_accepted()));
+        }
+    }
+    let n_generated = progs.len();
+    for (name, p) in crate::c13::fixed_programs() {
+        let must = name.starts_with("sanctioned") || name.starts_with("Lock::take");
+        progs.push((format!("fixed|{name}"), p, must));
+    }
+    // 1. type-check everything
+    let checked = par_map(&progs, threads, |i, (_, p, _)| tc.compile(&format!("c13_{i}"), p, false));
+    // 2. link and run what rustc accepts
+    let accepted: Vec<usize> = (0..progs.len()).filter(|i| checked[*i].ok).collect();
+    let ran = par_map(&accepted, threads, |_, i| {
+        let c = tc.compile(&format!("c13_run_{i}"), &progs[*i].1, true);
+        match c.bin {
+            Some(bin) => {
+                let r = tc.run(&bin, 30);
+                let _ = std::fs::remove_file(&bin);
+                Some(r)
+            }
+            None => None,
+        }
+    });
+    let wall = t0.elapsed().as_secs_f64();
+    let mut code = 0;
+    let mut violations = 0u32;
+    let mut fams: BTreeMap<String, u64> = BTreeMap::new();
+    let mut starts: BTreeMap<String, (u64, u64)> = BTreeMap::new(); // start -> (rejected, accepted-and-clean)
+    let mut samples = Vec::new();
+    let mut decided = 0usize;
+    for (i, (class, prog, must)) in progs.iter().enumerate() {
+        let start = class.split('|').next().unwrap().to_string();
+        if !checked[i].ok {
+            if *must {
+                eprintln!("gcverif: a sanctioned adoption chain was rejected by rustc (cannot decide): {class}: {}", checked[i].stderr.lines().take(5).collect::<Vec<_>>().join(" | "));
+                code = code.max(2);
+                continue;
+            }
+            if generator_fault(&checked[i].stderr) {
+                eprintln!("gcverif: probe generator fault (cannot decide): {class}: {}", checked[i].stderr.lines().take(5).collect::<Vec<_>>().join(" | "));
+                code = code.max(2);
+                continue;
+            }
+            decided += 1;
+            starts.entry(start).or_insert((0, 0)).0 += 1;
+            let mut f: Vec<String> = error_codes(&checked[i].stderr).into_iter().map(|c| c.split(':').next().unwrap().to_string()).collect();
+            f.sort();
+            f.dedup();
+            for x in &f {
+                *fams.entry(x.clone()).or_insert(0) += 1;
+            }
+            if samples.len() < 2 {
+                samples.push(serde_json::json!({"class": class, "verdict": "rejected by rustc", "diagnostics": f}));
+            }
+        }
+    }
+    for (k, i) in accepted.iter().enumerate() {
+        let (class, prog, _) = &progs[*i];
+        let start = class.split('|').next().unwrap().to_string();
+        match &ran[k] {
+            None => {
+                eprintln!("gcverif: accepted probe could not be linked (cannot decide): {class}");
+                code = code.max(2);
+            }
+            Some((rc, out)) => {
+                if *rc == Some(0) && out.contains("OK") {
+                    decided += 1;
+                    starts.entry(start).or_insert((0, 0)).1 += 1;
+                    if samples.len() < 4 {
+                        samples.push(serde_json::json!({"class": class, "verdict": "accepted, ran clean", "program_tail": prog.split("fn main()").nth(1).unwrap_or("")}));
+                    }
+                } else if *rc == Some(4) {
+                    eprintln!("gcverif: probe stored nothing (generator fault, cannot decide): {class}");
+                    code = code.max(2);
+                } else if *rc == Some(124) {
+                    eprintln!("gcverif: probe timed out (cannot decide): {class}");
+                    code = code.max(2);
+                } else {
+                    violations += 1;
+                    if violations == 1 {
+                        let path = format!("{root}/failures/C13-{:016x}.json", hash(prog));
+                        let body = serde_json::json!({"property": "C13", "kind": "probe-must-run-clean", "class": class, "exit": rc, "output": out, "program": prog});
+                        let _ = std::fs::write(&path, serde_json::to_string_pretty(&body).unwrap());
+                        println!("violated oracle: a program without unsafe code compiled and lost an adopted pointer (class {class}, exit {rc:?}): {}", out.lines().next().unwrap_or(""));
+                        println!("VIOLATION property=C13 replay={path}");
+                    } else {
+                        println!("  also: {class} (exit {rc:?})");
+                    }
+                    code = 1;
+                }
+            }
+        }
+    }
+    let starts_json: BTreeMap<String, serde_json::Value> = starts.iter().map(|(k, v)| (k.clone(), serde_json::json!({"rejected": v.0, "accepted_and_ran_clean": v.1}))).collect();
+    let cov = serde_json::json!({
+        "evaluations": progs.len(),
+        "distinct_nontrivial": decided,
+        "rule": "generated #![forbid(unsafe_code)] programs: storage (RefLock / Lock / OnceLock) behind 0-5 wrappers (Box, Rc, Arc, Vec, array, Option, Result, struct field, VecDeque, BTreeMap, HashMap) x the way a Write is obtained (Gc::write on the owner, Write::from_mut(&mut &*node).as_deref(), from_static, a fresh unrooted sibling sharing an Rc/Arc, from_mut on a local Rc/Arc clone, no Write at all, field! through a reference) x projection chain x store; plus 13 fixed probes for Cell / RefCell fields, the unsafe accessors, hand-written Unlock, field! through Gc. Oracle: rejected by rustc, or - compiled, linked and run - the child stored into a fully traced object survives two full cycles. Non-trivial = decided either way without generator fault; programs are distinct by (start, wrappers, cell)",
+        "samples": samples,
+        "exhaustive": false,
+        "generated_programs": n_generated,
+        "fixed_programs": progs.len() - n_generated,
+        "accepted_by_rustc_and_run": accepted.len(),
+        "by_start": starts_json,
+        "diagnostic_families": fams,
+        "build": tag,
+    });
+    let assumptions = ["rustc is the accept/reject oracle; a compiled probe contains no unsafe, so a destructed-while-stored child is a violation by the statement's own 'equivalently' clause", "grammar-bounded sample of program space (at most 5 wrappers)"];
+    crate::evidence::write_part(root, "C13", tier, seed, tag, cov, &assumptions, wall, violations);
+    println!("C13 {tier}: {} programs ({} accepted by rustc and run), {} decided, {:.1}s, exit {code}", progs.len(), accepted.len(), decided, wall);
+    code
+}
+
+fn c15(tc: &Toolchain, tier: &str, tag: &str, seed: u64, thorough: bool, root: &str, threads: usize, t0: Instant) -> i32 {
+    use std::collections::BTreeMap;
+    let n_shapes = std::env::var("GCVERIF_CASES").ok().and_then(|s| s.parse().ok()).unwrap_or(if thorough { 5000usize } else { 480 });
+    let n_reject = if thorough { 600 } else { 80 };
+    let mut runner = rng_runner(seed, "C15");
+    let strat = crate::c15::shape_strategy(3);
+    let shapes: Vec<(usize, crate::c15::Shape)> = (0..n_shapes).map(|i| (i, strat.new_tree(&mut runner).unwrap().current())).collect();
+    let batches: Vec<Vec<(usize, crate::c15::Shape)>> = shapes.chunks(24).map(|c| c.to_vec()).collect();
+    // 1. compile, link and run the batches
+    let results = par_map(&batches, threads, |bi, b| {
+        let prog = crate::c15::batch_program(b);
+        let c = tc.compile(&format!("c15_batch_{bi}"), &prog, true);
+        match c.bin {
+            Some(bin) => {
+                let r = tc.run(&bin, 60);
+                let _ = std::fs::remove_file(&bin);
+                (true, r.0, r.1, String::new())
+            }
+            None => (false, None, String::new(), c.stderr),
+        }
+    });
+    let mut code = 0;
+    let mut violations = 0u32;
+    let mut first_violation: Option<(String, String)> = None;
+    let mut classes: BTreeMap<String, u64> = BTreeMap::new();
+    let mut nontrivial = 0usize;
+    let mut checked_shapes = 0usize;
+    let mut samples: Vec<serde_json::Value> = Vec::new();
+    for (bi, (compiled, rc, out, stderr)) in results.iter().enumerate() {
+        if !compiled {
+            // find the offending shape(s)
+            let singles = par_map(&batches[bi], threads, |_, (i, sh)| {
+                let prog = crate::c15::batch_program(&[(*i, sh.clone())]);
+                let c = tc.compile(&format!("c15_single_{i}"), &prog, false);
+                (c.ok, c.stderr)
+            });
+            let mut found = false;
+            for ((i, sh), (ok, err)) in batches[bi].iter().zip(singles) {
+                if !ok {
+                    found = true;
+                    eprintln!("gcverif: a generated valid shape does not compile (cannot decide): shape {i} {}: {}", sh.class(), err.lines().take(8).collect::<Vec<_>>().join(" | "));
+                    eprintln!("{}", sh.decl(&format!("S{i}"), None, ""));
+                }
+            }
+            if !found {
+                eprintln!("gcverif: batch {bi} does not compile although every shape does (cannot decide): {}", stderr.lines().take(6).collect::<Vec<_>>().join(" | "));
+            }
+            code = code.max(2);
+            continue;
+        }
+        checked_shapes += batches[bi].len();
+        for (_, sh) in &batches[bi] {
+            *classes.entry(sh.class()).or_insert(0) += 1;
+            if sh.nontrivial() {
+                nontrivial += 1;
+            }
+        }
+        if *rc != Some(0) {
+            let fails: Vec<&str> = out.lines().filter(|l| l.starts_with("FAIL")).collect();
+            if fails.is_empty() {
+                eprintln!("gcverif: batch {bi} ended with {rc:?} without a verdict (cannot decide): {}", out.lines().take(4).collect::<Vec<_>>().join(" | "));
+                code = code.max(2);
+                continue;
+            }
+            violations += fails.len() as u32;
+            if first_violation.is_none() {
+                // isolate the first failing shape into a replayable single-shape program
+                let idx: usize = fails[0].split("shape ").nth(1).and_then(|s| s.split(' ').next()).and_then(|s| s.parse().ok()).unwrap_or(batches[bi][0].0);
+                if let Some((i, sh)) = batches[bi].iter().find(|(i, _)| *i == idx) {
+                    first_violation = Some((fails[0].to_string(), crate::c15::batch_program(&[(*i, sh.clone())])));
+                }
+            }
+        }
+        if samples.len() < 2 {
+            let (i, sh) = &batches[bi][0];
+            samples.push(serde_json::json!({"shape": sh.class(), "definition": sh.decl(&format!("S{i}"), None, "")}));
+        }
+    }
+    // 2. rejection probes
+    let rshapes: Vec<crate::c15::Shape> = (0..n_reject).map(|_| strat.new_tree(&mut runner).unwrap().current()).collect();
+    let picks: Vec<usize> = (0..n_reject).map(|_| proptest::num::usize::ANY.new_tree(&mut runner).unwrap().current() % 97).collect();
+    let probes = crate::c15::reject_probes(&rshapes, &picks);
+    let rres = par_map(&probes, threads, |i, (_, bad, twin)| (tc.compile(&format!("c15_rej_{i}"), bad, false), tc.compile(&format!("c15_twin_{i}"), twin, false)));
+    let mut rejected: BTreeMap<String, u64> = BTreeMap::new();
+    for ((class, bad, _), (b, t)) in probes.iter().zip(rres) {
+        if !t.ok {
+            eprintln!("gcverif: defect-free twin of a rejection probe does not compile (cannot decide): {class}: {}", t.stderr.lines().take(6).collect::<Vec<_>>().join(" | "));
+            code = code.max(2);
+            continue;
+        }
+        if b.ok {
+            violations += 1;
+            if first_violation.is_none() {
+                first_violation = Some((format!("the derive accepted a type with the defect '{class}'"), bad.clone()));
+            }
+            println!("  accepted defect: {class}");
+            continue;
+        }
+        *rejected.entry(class.clone()).or_insert(0) += 1;
+    }
+    let wall = t0.elapsed().as_secs_f64();
+    if let Some((msg, prog)) = &first_violation {
+        let accepted_defect = msg.starts_with("the derive accepted");
+        let path = format!("{root}/failures/C15-{:016x}.json", hash(prog));
+        let body = serde_json::json!({"property": "C15", "kind": if accepted_defect { "probe-must-not-compile" } else { "probe-must-run-clean" }, "message": msg, "program": prog});
+        let _ = std::fs::write(&path, serde_json::to_string_pretty(&body).unwrap());
+        println!("violated oracle: {msg} ({violations} failures in total)");
+        println!("VIOLATION property=C15 replay={path}");
+        code = 1;
+    }
+    if samples.len() < 3 {
+        if let Some((class, bad, _)) = probes.first() {
+            samples.push(serde_json::json!({"rejection_probe": class, "program_tail": bad.split("pub struct NoImpl").nth(1).unwrap_or("").chars().rev().take(400).collect::<String>().chars().rev().collect::<String>()}));
+        }
+    }
+    let cov = serde_json::json!({
+        "evaluations": checked_shapes + probes.len(),
+        "distinct_nontrivial": nontrivial + rejected.values().sum::<u64>() as usize,
+        "rule": "type shapes from a proptest strategy (unit / tuple / named structs, enums with 1-5 mixed variants, 0-2 type parameters with default / explicit / empty-plus-where bounds, a second lifetime with gc_lifetime, no_drop / unsafe_drop / require_static modes, field types from a grammar over Gc, GcWeak, Option, Vec, tuples, arrays, Box, Lock, RefLock, nested derived types, static scalars and an announcing static type, require_static at any field position) rendered into programs that build every variant with a distinct fresh pointer in every pointer position (three instantiations per generic shape), trace it with a recording Trace and compare multisets and NEEDS_TRACE with the generator's own computation; plus rejection probes (missing / duplicated mode, two attributes, no_drop + Drop, require_static on a non-'static field at a generated position or on a variant, non-Collect field at a generated position, two lifetimes without gc_lifetime, unknown option), each with a compiling defect-free twin. Non-trivial = shape with >= 2 pointer-bearing fields or >= 2 variants, or a rejection probe rejected while its twin compiled",
+        "samples": samples,
+        "exhaustive": false,
+        "shapes_checked": checked_shapes,
+        "shape_classes": classes.len(),
+        "rejection_probes": probes.len(),
+        "rejected_by_class": rejected,
+        "build": tag,
+    });
+    let assumptions = ["rustc compiles the generated programs as a user's compiler would; the generator's own NEEDS_TRACE computation follows the statement (disjunction over traced field types)", "grammar-bounded sample of shape space (<= 5 fields per variant, <= 5 variants, type nesting depth <= 3)"];
+    crate::evidence::write_part(root, "C15", tier, seed, tag, cov, &assumptions, wall, violations);
+    println!("C15 {tier}: {checked_shapes} shapes in {} batches, {} rejection probes, {:.1}s, exit {code}", batches.len(), probes.len(), wall);
     code
 }
